@@ -11,8 +11,9 @@ Model: `RegionData.clauses` (= `create_data_movement_deep_copy_refs` +
   on the device without having been copied in) and `write_only_copyout_counterexample`
   (`a(1) = 5` gets `copyout(a)`: the undefined `a(2)` of the device overwrites the host's).
 * `C13_partial` — proved when no touched array lands in `copyout`;
-  `C13_deviation_partial` — when `copyout` arrays are at least never read, the *only* damage is
-  undefined device values copied back over elements the region left untouched;
+  `C13_deviation_covered_partial` — when `copyout` arrays are read at most at elements covered by
+  an earlier unconditional store (syntactic `CopyoutCovered`; `C13_deviation_partial`: never
+  read), the *only* damage is undefined device values copied back over untouched elements;
   `C13_covered_partial` — hence none, if the region changes every declared element of them. -/
 namespace C13
 open MiniF RegionData
@@ -204,28 +205,36 @@ theorem C13_refusals (hasEnter : Bool) (items : List Item) :
     simp only [reduceCtorEq, false_iff, not_or]
     exact ⟨h.1.1, h.1.2, h.2⟩
 
-/-- **exact damage, partial**: if the `copyout` arrays are at least never read in the region,
-every location ends as on the host, except that an element of a `copyout` array which the
-region leaves untouched receives the undefined device value -/
-theorem C13_deviation_partial (s : RStmt) (h : CopyoutNotRead s) (σ γ : Store) (l : Loc) :
-    (execACC fuel (clauses s) s σ γ) l = (rexec fuel s σ) l ∨
-      (l.1 ∈ (clauses s).cout ∧ (execACC fuel (clauses s) s σ γ) l = γ l ∧ (rexec fuel s σ) l = σ l) := by
+/-- reads of `copyout` arrays only at covered elements: implied by "never read" -/
+theorem copyoutCovered_of_notRead (s : RStmt) (h : CopyoutNotRead s) : CopyoutCovered s := by
   unfold CopyoutNotRead copyoutNotRead at h
   simp only [List.all_eq_true, Bool.not_eq_true'] at h
-  -- every read variable
-  let K : List Nat := (varsOf (sacc s)).filter (isRead (sacc s))
+  apply chk_of_reads
+  intro ev he hw
+  simp only [nonCout, List.mem_filter, mem_varsOf, Bool.not_eq_true', List.contains_eq_mem,
+    decide_eq_false_iff_not]
+  refine ⟨⟨ev, he, rfl⟩, fun hout => ?_⟩
+  have := h _ hout
+  rw [isRead_iff.mpr ⟨ev, he, rfl, hw⟩] at this
+  exact absurd this (by decide)
+
+/-- **exact damage, partial** (syntactic side condition): if every read of a `copyout` array is
+of an element covered by an earlier unconditional store of the region (`CopyoutCovered`; in
+particular if those arrays are never read), every location ends as on the host, except that an
+element of a `copyout` array which the region leaves untouched receives the undefined device
+value — no undefined value is ever consumed -/
+theorem C13_deviation_covered_partial (s : RStmt) (h : CopyoutCovered s) (σ γ : Store) (l : Loc) :
+    (execACC fuel (clauses s) s σ γ) l = (rexec fuel s σ) l ∨
+      (l.1 ∈ (clauses s).cout ∧ (execACC fuel (clauses s) s σ γ) l = γ l ∧ (rexec fuel s σ) l = σ l) := by
+  let K : List Nat := nonCout s
   let A0 : Loc → Prop := fun l => l.1 ∉ (clauses s).cout
-  have hK : ∀ ev ∈ sacc s, ev.write = false → ev.var ∈ K := by
-    intro ev he hw
-    simp only [K, List.mem_filter, mem_varsOf]
-    exact ⟨⟨ev, he, rfl⟩, isRead_iff.mpr ⟨ev, he, rfl, hw⟩⟩
   have hkok : KOK A0 K (sacc s) := by
-    intro ev he hw _ l' hc hout
-    have := h _ hout
-    rw [hc.1] at this
-    rw [isRead_iff.mpr ⟨ev, he, rfl, hw⟩] at this
-    exact absurd this (by decide)
-  obtain ⟨D, hD⟩ := Option.isSome_iff_exists.mp (chk_of_reads (K := K) s [] hK)
+    intro ev he hw hk l' hc hout
+    simp only [K, nonCout, List.mem_filter, Bool.not_eq_true', List.contains_eq_mem,
+      decide_eq_false_iff_not] at hk
+    rw [hc.1] at hout
+    exact hk.2 hout
+  obtain ⟨D, hD⟩ := Option.isSome_iff_exists.mp h
   let d0 := devInit (clauses s) (arrays s) σ γ
   have hd0 : ∀ l', l'.1 ∉ (clauses s).cout → d0 l' = σ l' := by
     intro l' hl'
@@ -242,14 +251,13 @@ theorem C13_deviation_partial (s : RStmt) (h : CopyoutNotRead s) (σ γ : Store)
           · exact absurd h3 hl'
           · exact absurd (Or.inr h3) h1
       · rfl
-  have h0 : Sim (Adef A0 []) d0 σ d0 σ := by
-    constructor
-    · intro l' hl'
-      rcases hl' with hl' | hl'
-      · exact hd0 l' hl'
-      · exact absurd hl'.1 (by simp)
-    · intro l'; exact Or.inr ⟨rfl, rfl⟩
-  have hs := (chk_sim (fuel := fuel) s [] D d0 σ hD hkok h0).1
+  have h0 : SimS A0 ([], []) d0 σ d0 σ := by
+    refine ⟨⟨?_, fun l' => Or.inr ⟨rfl, rfl⟩⟩, fun p hp => by cases hp⟩
+    intro l' hl'
+    rcases hl' with hl' | hl'
+    · exact hd0 l' hl'
+    · exact absurd hl'.1 (by simp)
+  have hs := (chk_sim (fuel := fuel) s ([], []) D d0 σ hD hkok h0).1.sim
   have hE : (execACC fuel (clauses s) s σ γ) l = (hostFinal (clauses s) (arrays s) σ (rexec fuel s d0)) l := rfl
   rw [hE]
   simp only [hostFinal, Bool.or_eq_true, List.contains_iff_mem]
@@ -281,16 +289,71 @@ theorem C13_deviation_partial (s : RStmt) (h : CopyoutNotRead s) (σ γ : Store)
           · exact absurd (Or.inr h3) h1
       · exact hag
 
-/-- **full coverage suffices, partial**: if the `copyout` arrays are never read and the region
+/-- the same under the stronger "copyout arrays are never read" -/
+theorem C13_deviation_partial (s : RStmt) (h : CopyoutNotRead s) (σ γ : Store) (l : Loc) :
+    (execACC fuel (clauses s) s σ γ) l = (rexec fuel s σ) l ∨
+      (l.1 ∈ (clauses s).cout ∧ (execACC fuel (clauses s) s σ γ) l = γ l ∧ (rexec fuel s σ) l = σ l) :=
+  C13_deviation_covered_partial s (copyoutCovered_of_notRead s h) σ γ l
+
+/-- **full coverage suffices, partial**: if the `copyout` arrays are read at covered elements only and the region
 changes every element of them inside the declared extents `Ext`, the host agrees with host
 execution on all declared elements — the situation `copyout` is meant for -/
-theorem C13_covered_partial (s : RStmt) (h : CopyoutNotRead s) (σ γ : Store) (Ext : Loc → Prop)
+theorem C13_covered_partial (s : RStmt) (h : CopyoutCovered s) (σ γ : Store) (Ext : Loc → Prop)
     (hcov : ∀ l, l.1 ∈ (clauses s).cout → Ext l → (rexec fuel s σ) l ≠ σ l) :
     ∀ l, Ext l → (execACC fuel (clauses s) s σ γ) l = (rexec fuel s σ) l := by
   intro l hl
-  rcases C13_deviation_partial s h σ γ l with h1 | ⟨hout, _, h3⟩
+  rcases C13_deviation_covered_partial s h σ γ l with h1 | ⟨hout, _, h3⟩
   · exact h1
   · exact absurd h3 (hcov l hout hl)
+
+/-! ### structure members: the parents added for the deep copy do not matter -/
+
+theorem mem_withParents {par : List (Nat × Nat)} {l : List Nat} {x : Nat}
+    (hx : ∀ q ∈ par, q.2 ≠ x) : x ∈ withParents par l ↔ x ∈ l := by
+  simp only [withParents, mem_dedup, List.mem_append, parentsOf, List.mem_filterMap, Option.map_eq_some_iff]
+  constructor
+  · rintro (⟨y, _, q, hq, rfl⟩ | h)
+    · exact absurd rfl (hx q (List.mem_of_find?_eq_some hq))
+    · exact h
+  · exact fun h => Or.inr h
+
+/-- **parents are irrelevant**: if the parent ids are not variables of the region (a structure
+is only accessed through its members), the data region with the parents added to the clauses
+(`clausesP`, what the real directive carries) behaves on every other variable exactly like the
+one with the member clauses only — so the theorems about `clauses` carry over -/
+theorem C13_parents_irrelevant (par : List (Nat × Nat)) (s : RStmt)
+    (hpar : ∀ q ∈ par, ∀ e ∈ sacc s, e.var ≠ q.2) (σ γ : Store) (l : Loc)
+    (hl : ∀ q ∈ par, q.2 ≠ l.1) :
+    (execACC fuel (clausesP par s) s σ γ) l = (execACC fuel (clauses s) s σ γ) l := by
+  let K : List Nat := varsOf (sacc s)
+  let A0 : Loc → Prop := fun l' => ∀ q ∈ par, q.2 ≠ l'.1
+  have hmem : ∀ (L : List Nat) (l' : Loc), A0 l' → ((withParents par L).contains l'.1 = L.contains l'.1) := by
+    intro L l' h'
+    rw [Bool.eq_iff_iff]
+    simp only [List.contains_iff_mem]
+    exact mem_withParents h'
+  have hkok : KOK A0 K (sacc s) := by
+    intro ev he _ _ l' hc q hq
+    rw [hc.1]
+    exact (hpar q hq ev he).symm
+  obtain ⟨D, hD⟩ := Option.isSome_iff_exists.mp
+    (chk_of_reads (K := K) s ([], []) (fun ev he _ => mem_varsOf.mpr ⟨ev, he, rfl⟩))
+  let dP := devInit (clausesP par s) (arrays s) σ γ
+  let d0 := devInit (clauses s) (arrays s) σ γ
+  have hd : ∀ l', A0 l' → dP l' = d0 l' := by
+    intro l' h'
+    simp only [dP, d0, devInit, clausesP, hmem _ l' h']
+  have h0 : SimS A0 ([], []) dP d0 dP d0 := by
+    refine ⟨⟨?_, fun l' => Or.inr ⟨rfl, rfl⟩⟩, fun p hp => by cases hp⟩
+    intro l' hl'
+    rcases hl' with hl' | hl'
+    · exact hd l' hl'
+    · exact absurd hl'.1 (by simp)
+  have hs := (chk_sim (fuel := fuel) s ([], []) D dP d0 hD hkok h0).1.sim
+  have hag : (rexec fuel s dP) l = (rexec fuel s d0) l := hs.agree l (Or.inl hl)
+  show (hostFinal (clausesP par s) (arrays s) σ (rexec fuel s dP)) l
+    = (hostFinal (clauses s) (arrays s) σ (rexec fuel s d0)) l
+  simp only [hostFinal, clausesP, hmem _ l hl, hag]
 
 /-! ## The defect: partially written arrays are put in `copyout` -/
 
@@ -346,9 +409,12 @@ example : ¬ CopyoutNotRead wit := by decide
 element of `a` is changed (hypothesis of `C13_covered_partial`) -/
 def cover : RStmt :=
   .loop 2 (.lit 1) (.lit 3) (.lit 1) (.store1 0 (.var 2) (.bin .add (.idx1 1 (.var 2)) (.lit 1)))
-example : clauses cover = ⟨[1], [0], []⟩ ∧ CopyoutNotRead cover := by decide
+example : clauses cover = ⟨[1], [0], []⟩ ∧ CopyoutNotRead cover ∧ CopyoutCovered cover := by decide
 example : ∀ i : Fin 3, (rexec 0 cover (storeOf [])) (0, (i.val : Int) + 1, 0)
     ≠ (storeOf []) (0, (i.val : Int) + 1, 0) := by decide
+/-- `g%d(1) = a(1) + g%e(1)` (a=0, g%d=1, g%e=2, parent g=9): `copyin(a,g,g%e) copyout(g,g%d)` -/
+example : clausesP [(1, 9), (2, 9)] (.store1 1 (.lit 1) (.bin .add (.idx1 0 (.lit 1)) (.idx1 2 (.lit 1))))
+    = ⟨[9, 0, 2], [9, 1], []⟩ := by decide
 example : accDataTrans true [.stmt good] = none := by decide
 example : accDataTrans false [.stmt good, .excluded] = none := by decide
 example : accDataTrans false [] = none := by decide
@@ -364,5 +430,17 @@ example : clauses wloop = ⟨[], [], [0]⟩ ∧ FullyWrittenOrRead wloop := by d
 here the device holds 0 at `r(1)`, the loop is skipped and `w` stays 1, the host run gives 0 -/
 example : (execACC 5 ⟨[], [0], []⟩ wloop (storeOf [((0, 1, 0), 3), ((1, 0, 0), 1)]) (storeOf [])) (1, 0, 0) = 1
     ∧ (rexec 5 wloop (storeOf [((0, 1, 0), 3), ((1, 0, 0), 1)])) (1, 0, 0) = 0 := by decide
+
+/-- `do i = 1, n: a(i) = b(i) * 2; c(i) = a(i) + 1` (a=0 b=1 c=2 i=3 n=4): `a` is `copyout`
+although it is read — but only at the element just written: `CopyoutCovered` holds (the
+"same index in the same loop" criterion), `CopyoutNotRead` does not -/
+def cover2 : RStmt :=
+  .loop 3 (.lit 1) (.var 4) (.lit 1)
+    (.seq (.store1 0 (.var 3) (.bin .mul (.idx1 1 (.var 3)) (.lit 2)))
+          (.store1 2 (.var 3) (.bin .add (.idx1 0 (.var 3)) (.lit 1))))
+
+example : (clauses cover2).cout.contains 0 ∧ CopyoutCovered cover2 ∧ ¬ CopyoutNotRead cover2 := by decide
+/-- whereas the witness reads the uncovered `a(2)` -/
+example : ¬ CopyoutCovered wit := by decide
 
 end C13
